@@ -92,7 +92,8 @@ func checkC13(c *hx.Checker) {
 	if thorough {
 		maxSupRank = 6
 	}
-	c.Rule = fmt.Sprintf("one-input signatures: every rank 1..%d with each dim in {fixed 2, fixed 3, symbolic, unspecified (no value), symbolic with an empty name} x supplied tensor of EVERY shape of Box(rank 0..%d, extents {1,2,3}) on an identity-like graph (Relu); "+
+	c.Rule = "dimension denotations: 7 labels x axis 0/1 x {fixed, symbolic, unspecified} x extents 1..4 on that axis, Run and InputShapes; " +
+		fmt.Sprintf("one-input signatures: every rank 1..%d with each dim in {fixed 2, fixed 3, symbolic, unspecified (no value), symbolic with an empty name} x supplied tensor of EVERY shape of Box(rank 0..%d, extents {1,2,3}) on an identity-like graph (Relu); "+
 		"introspection (InputNames / InputShapes / InputDimSize) compared with the declaration and with the observed accept/reject behaviour per axis; "+
 		"call histories: every sequence of 1..3 Runs on one Model over 11 feeds of the three-input signature (good, other dynamic sizes, each input missing / wrong rank / wrong fixed dim), every call judged by the same predicate; three-input signatures (fixed, symbolic, mixed) x every subset of supplied names, an extra name, names permuted onto the wrong tensors; inputs shadowed by initializers (supplied / not supplied). "+
 		"non-trivial = supplied shape differs from a trivially matching one (every reject case and every accept with a dynamic axis)", maxSigRank, maxSupRank)
